@@ -2,6 +2,7 @@ package props
 
 import (
 	"bytes"
+	"errors"
 	"fmt"
 	"io"
 	"os"
@@ -252,11 +253,12 @@ func checkC11(c caseC11) (viol string, nontrivial bool, feats []string) {
 	}
 	if f.sentErr {
 		feats = append(feats, "read-error-delivered")
-		if h.err != errSentinel {
+		// the read error itself or an error wrapping it
+		if !errors.Is(h.err, errSentinel) {
 			return fmt.Sprintf("a Read returned the error %q, but the call returned %v", errSentinel, h.err), false, feats
 		}
 	} else {
-		if h.err == errSentinel {
+		if errors.Is(h.err, errSentinel) {
 			return "the call returned the injected error although no Read returned it", false, feats
 		}
 		// outcome class as for the whole (delivered) input, unless the reader
